@@ -82,3 +82,78 @@ func runRSS14() {
 			}
 		})
 }
+
+// runRSS14Distorted shows the reader printed-and-scanned variants of valid symbols: the symbol at
+// 2, 3 and 5 pixels per module with every single element (bar or space) one pixel wider or
+// narrower, and every adjacent pair of elements with the edge between them moved by one pixel.
+// These are the inputs for which the reader has to ADJUST the rounded element widths of a data
+// character to the odd/even sums its group demands (adjustOddEvenCounts) - with exact multiples
+// that code never does anything. One reader object sees the row three times, as an image reader
+// would over three rows.
+func runRSS14Distorted() {
+	outs := []int{0, 160, 161, 960, 961, 2014, 2015, 2714, 2715, 2840}
+	ins := []int{0, 335, 336, 1035, 1036, 1515, 1516, 1596}
+	type job struct{ lo, li, ro, ri, scale int }
+	var jobs []job
+	for a, lo := range outs {
+		for b, li := range ins {
+			// pair every left half with two right halves (all group combinations of a half are covered)
+			for k := 0; k < 2; k++ {
+				ro, ri := outs[(a+3*k+1)%len(outs)], ins[(b+5*k+2)%len(ins)]
+				for _, sc := range []int{2, 3, 5} {
+					if chk.Quick() && (a+b+k+sc)%3 != 0 {
+						continue
+					}
+					jobs = append(jobs, job{lo, li, ro, ri, sc})
+				}
+			}
+		}
+	}
+	chk.Range("valid RSS-14 symbols at 2, 3 and 5 pixels per module with every single element +-1 pixel and every edge between two elements moved by one pixel (quick: a third of 480 symbol/scale pairs), three DecodeRow calls on one reader", len(jobs),
+		func(i int) string { return fmt.Sprint(jobs[i]) },
+		func(l *mc.Local, i int) {
+			j := jobs[i]
+			mods, err := refoned.RSS14FromCharacters(j.lo, j.li, j.ro, j.ri)
+			if err != nil {
+				panic("harness: reference RSS-14 encoder refuses in-range characters: " + err.Error())
+			}
+			b := append(append(make([]bool, 10), mods...), make([]bool, 10)...)
+			base := runs(scaleRow(b, j.scale))
+			one := func(r []int, what string) {
+				bb := fromRuns(r, false)
+				rd := rss.NewRSS14Reader().(rowDecoder)
+				for call := 0; call < 3; call++ {
+					var res *gozxing.Result
+					var e error
+					row := toBitArray(bb)
+					cs := rcase{Kind: "row", Target: "RSS14", Bits: rowStr(bb), Extra: fmt.Sprintf("rss14 characters %d,%d,%d,%d scale %d %s call %d", j.lo, j.li, j.ro, j.ri, j.scale, what, call+1)}
+					l.Beat("")
+					pm, site := mc.Guard(func() { res, e = rd.DecodeRow(call, row, nil) })
+					outcome(l, "row/RSS14/distorted-symbol", pm, site, res, e, cs, false)
+					if pm != "" {
+						return
+					}
+					if e == nil {
+						l.Count("distorted RSS-14 rows decoded", 1)
+					}
+				}
+			}
+			for k := 1; k+1 < len(base); k++ {
+				for _, d := range []int{1, -1} {
+					r := append([]int{}, base...)
+					r[k] += d
+					if r[k] > 0 {
+						one(r, fmt.Sprintf("element %d %+d", k, d))
+					}
+					if k+2 < len(base) {
+						r = append([]int{}, base...)
+						r[k] += d
+						r[k+1] -= d
+						if r[k] > 0 && r[k+1] > 0 {
+							one(r, fmt.Sprintf("edge after element %d moved %+d", k, d))
+						}
+					}
+				}
+			}
+		})
+}
